@@ -50,6 +50,7 @@ vars == <<it, sig, stopped, trail>>
 NC == Len(Sizes)
 Occupied == {c \in 1..NC : Sizes[c] > 0}
 Cap == IF 99 * D < 100 * S0 THEN (99 * D) \div 100 ELSE S0      \* min(sigma_0, 0.99) * D   (D divisible by 100)
+Floor == IF NMin < NMax THEN NMin ELSE NMax                    \* the least number of sweeps: min(n_min, n_max)
 Clip(v, lo, hi) == IF v < lo THEN lo ELSE IF v > hi THEN hi ELSE v
 
 \* rate (alpha - 0.234) D  with alpha = a/4, rate = 1/(k):   D (125 a - 117) / (500 k)
@@ -70,7 +71,8 @@ Sweep(al, st) ==
                  ELSE IF Kernel = "tpcn" THEN Clip(sig[c] + Delta(al[c], it' + 1), 0, Cap)
                  ELSE sig[c] + Delta(al[c], it' + 1)]
     \* what the rule implies whatever `adaptive` is
-    /\ (it' < NMin => ~st)
+    \* (n_max < n_min is a legal configuration: the cap wins, min(max(n_min, .), n_max) = n_max)
+    /\ (it' < Floor => ~st)
     /\ (it' >= NMax => st)
     /\ stopped' = st
     /\ trail' = Append(trail, [al |-> al, st |-> st])
@@ -86,7 +88,7 @@ TypeOK == it \in 0..NMax /\ stopped \in BOOLEAN /\ \A c \in 1..NC : sig[c] \in I
 TpcnBounds == Kernel = "tpcn" => \A c \in 1..NC : sig[c] >= 0 /\ sig[c] <= Cap
 
 \* the loop makes at least n_min and at most n_max sweeps
-StopWindow == stopped => (it >= NMin /\ it <= NMax)
+StopWindow == stopped => (it >= Floor /\ it <= NMax)
 Terminates == it <= NMax /\ (it = NMax => stopped)
 
 \* the step size of a cluster without walkers is never touched
